@@ -98,6 +98,8 @@ def chk_ref(case, note):
             base = 90.0 if surface else 360.0
             far = max(-90.0, min(90.0, r1[0] + (3 if r1[0] < 0 else -3) * base / (60 - i)))
             call(fn, msg, far, cg.wrap_lon(r1[1] + 40.0))
+        if b & 32:
+            variants.damaged_calls(fn, msg, r1[0], r1[1])   # the same squitter cut short / too long was handed to this decoder before
         for (rl, ro) in refs:
             r = call(fn, msg, rl, ro)
             tag = "%s(%s, %r, %r)" % (name, msg, rl, ro)
